@@ -257,6 +257,14 @@ void Broker::do_emit(int conn, int sidx, int cut) {
 
 void Broker::handle_connect(BConn& c, int ridx) {
     const Packet& p = recv[ridx].pkt;
+    // session take-over [MQTT-3.1.4-3]: an existing connection of the same client is closed
+    for (auto& o : conns) {
+        if (!o || o.get() == &c || o->phase == BConn::closed) continue;
+        sim::Conn* onc = net.conn(o->conn);
+        if (onc && !onc->broker_closed) { if (!*onc->close_cause) onc->close_cause = "broker_takeover"; net.broker_close(*onc, false); }
+        o->client_gone = true; o->phase = BConn::closed;
+        w.count("brk.session_takeover");
+    }
     c.client_keep_alive = p.keep_alive;
     if (auto* x = find_prop(p.props, P_RECV_MAX)) c.client_recv_max = (uint16_t)x->num;
     if (auto* x = find_prop(p.props, P_MAX_PACKET)) c.client_max_packet = x->num;
